@@ -24,6 +24,8 @@ func main() {
 			os.Exit(2)
 		}
 		os.Exit(checks.Main(os.Args[2], os.Args[3], os.Args[4:]))
+	case "probe-image":
+		checks.ProbeImage(os.Args[2], os.Args[3])
 	default:
 		fmt.Fprintln(os.Stderr, "unknown subcommand")
 		os.Exit(2)
